@@ -16,9 +16,8 @@ SCHED = [('Scheduler', '__init__'), ('Scheduler', 'send_packet'), ('Scheduler', 
          ('SP', 'run'), ('SP', '__init__'), ('WFQ', 'run'), ('WFQ', 'put'), ('WFQ', '__init__'), ('VC', 'run'),
          ('VC', 'put'), ('VC', '__init__'), ('DRR', 'run'), ('DRR', 'put'), ('DRR', '__init__'), ('RR', 'run'),
          ('RR', '__init__'), ('WRR', 'run'), ('WRR', '__init__')]
-STORE = [('Store', '__init__'), ('Store', '_do_put'), ('Store', '_do_get'), ('PriorityStore', '_do_put'),
-         ('PriorityStore', '_do_get'), ('PriorityItem', '__lt__'), ('StorePut', '__init__'),
-         ('BaseResource', '_trigger_put'), ('BaseResource', '_trigger_get'), ('Put', '__init__'), ('Get', '__init__')]
+STORE = [('Store', '_do_put@unbounded'), ('Store', '_do_get'), ('PriorityStore', '_do_put@unbounded'),
+         ('PriorityStore', '_do_get'), ('PriorityItem', '__lt__'), ('StorePut', '__init__')]
 
 def check(ctx):
     N.run_tables(ctx, 'C08', PUTS)
